@@ -36,6 +36,10 @@ package main
 // END TO END: after racing /authorize requests every code / callback id handed out is redeemed / continued;
 // two or more TOKEN RESPONSES out of one request_uri are named
 //   race:<kind>:several-token-responses           (never known)
+// MIXED VERDICTS (suite_c15mixed.go, Model/RaceMixed.v): c15Scenario.Verdicts gives every racing CIBA poll its own answer of the
+// embedder's validation function (handed over when the gate releases that poll); one more approved poll follows the race;
+// two token responses over race + follow-up are named
+//   race:auth_req_id:mixed-verdicts:several-token-responses   (never known)
 
 import (
 	"context"
